@@ -10,7 +10,7 @@ COQ_EXEC = ['exec.X_filter']
 COQ_IMPORTS = 'From PB Require Import model.M_table model.M_filter.\n'
 PER_FILE = 400
 CASE_TIMEOUT = 10
-RULE = ('column names (tables, conditions, callable arguments, find_<col>) are drawn from a pool that includes id, name, date, f, n1, _x, find_me, dd '
+RULE = ('also SEQUENCES of 2-5 inc/exc calls in one process on shared tables (same code object, different captured data), every call made twice, table re-checked after every call; tables of 7-40 rows with few far-apart survivors. column names (tables, conditions, callable arguments, find_<col>) are drawn from a pool that includes id, name, date, f, n1, _x, find_me, dd '
         '(names built from / starting with the letters of "find_") besides a, b, c. '
         'cases: (table of 0-6 rows x 1-3 columns over {None, 0, 1, 1.0, 2, 2.5, shared NaN objects, "a", "ab", "b", ""}, condition, column for find_) '
         'where the condition is: nothing; 1-3 column conditions spelled as keyword filters, one positional dict, dict + keywords, two dicts, two dicts + keywords (incl. an empty dict, and a key occurring in two groups: the later group wins, as filters.update does) each a value / None / a NaN (the shared object or a fresh one) / '
@@ -25,7 +25,7 @@ EXPLANATION = ('theorems C06_* (coq/props/C06.v) hold for every rectangular tabl
                'partition, order, columns, identity, idempotence and find_ follow on the spec; the correspondence ties the concrete model to /repo')
 TRUSTED = ['modelled, not verified: coq/model/M_filter.v + M_table.v (tied by the correspondence only)',
            'regexes restricted to literal patterns (re.escape): pattern.search = substring test; with re.I = substring test on ASCII-lowercased strings; "^" + literal with re.M = some line starts with it',
-           'kwargs_support / callables restricted to the named set of M_table.rowfn']
+           'kwargs_support / callables restricted to the named set of M_table.rowfn (incl. data-capturing predicates `x in <list>` built as closures of one factory, bound methods, lambdas re-created in a loop)']
 ASSUMPTIONS = ['cells are None, ints, half-integer floats, NaN objects, ASCII strings; +-inf cells and conditions are generated and modelled as the code does (pyg_base.is_nan counts inf as missing: inc(x=nan) also selects inf rows, inc(x=inf) NaN rows); the text does not decide the MEMBERSHIP of such rows, so the oracle claims for them only that inc/exc partition the rows in order and keep the columns',
                'a conjunction spelled across keyword filters and positional dicts is the flattened list kw ++ dict1 ++ dict2 (model: QFilters + dict_of); when one column gets two '
                'different conditions in one call the model follows the code (the later group wins) but the oracle only claims that inc/exc still partition the rows in order',
@@ -50,10 +50,12 @@ def cond_coq(c):
     return '(%s %s)' % ({'I': 'CRegexI', 'M': 'CRegexM'}.get(c.get('fl'), 'CRegex'), qs(c['re']))
 def query_coq(q):
     if 'none' in q: return 'QNone'
-    if 'f' in q: return '(QFun %s)' % rowfn_coq(q['f'])
+    if 'f' in q: return '(QFun %s)' % ('(RIn %s %s)' % (qs(q['f'][1]), clist(cell_coq(x) for x in q['f'][2])) if q['f'][0] == 'in' else rowfn_coq(q['f']))
     return '(QFilters %s)' % clist('(%s, %s)' % (qs(k), cond_coq(c)) for k, c in q['filters'])
-def coq_runner(case): return 'run_c06'
+def coq_runner(case): return 'run_c06_steps' if 'steps' in case else 'run_c06'
 def coq_case(case):
+    if 'steps' in case:
+        return clist('(%s, %s)' % (clist('(%s, %s)' % (qs(n), cval_coq(v)) for n, v in case['tables'][ti]), query_coq(q)) for ti, q in case['steps'])
     return '%s %s %s' % (clist('(%s, %s)' % (qs(n), cval_coq(v)) for n, v in case['kvs']), query_coq(case['q']), qs(case['fkey']))
 
 def impl_setup():
@@ -69,7 +71,7 @@ def cond_py(c, conv):
 
 def call_with(method, q, conv):
     if 'none' in q: return method()
-    if 'f' in q: return method(mk_rowfn(q['f']))
+    if 'f' in q: return method(mk_pred(q['f'], conv))
     kw, d1, d2 = groups_of(q)
     conv_ = lambda g: {k: cond_py(c, conv) for k, c in g}
     pos = ([conv_(d1)] if d1 is not None else []) + ([conv_(d2)] if d2 is not None else [])
@@ -129,28 +131,137 @@ def table_rows(t):
 def rows_equal(a, b):
     return len(a) == len(b) and all(set(x) == set(y) and all(same(x[k], y[k]) for k in x) for x, y in zip(a, b))
 
-def impl(case):
+# predicates that CAPTURE their data: several closures from one factory, bound methods of different objects and a lambda re-created
+# in a loop share one code object per column name for the whole life of the worker process (module level cache below)
+_FACT = {}
+def factories(col):
+    if col not in _FACT:
+        ns = {}
+        exec(('def above(vals):\n    return lambda %s: %s in vals\n'
+              'class Band:\n    def __init__(self, vals): self.vals = vals\n    def holds(self, %s): return %s in self.vals\n'
+              'def looped(all_vals):\n    out = []\n    for vals in all_vals:\n        out.append(lambda %s, vals=vals: %s in vals)\n    return out\n') % ((col,) * 6), ns)
+        _FACT[col] = ns
+    return _FACT[col]
+
+def mk_pred(f, conv):
+    if f[0] != 'in': return mk_rowfn(f)
+    vals = [conv(x) for x in f[2]]; ns = factories(f[1]); sp = f[3] if len(f) > 3 else 'closure'
+    if sp == 'method': return ns['Band'](vals).holds
+    if sp == 'loop': return ns['looped']([[], vals])[1]
+    return ns['above'](vals)
+def pred_args(f): return [f[1]] if f[0] == 'in' else rowfn_args(f)
+def ref_pred(f, row, conv):
+    if f[0] == 'in': return any(row[f[1]] is x or row[f[1]] == x for x in (conv(y) for y in f[2]))
+    return ref_rowfn(f, row)
+
+def attempt(f):
+    try: return ('ok', f())
+    except Exception as e: return (err_name(e), None)
+
+def same_table(a, b):
+    return a[0] == b[0] and (a[0] != 'ok' or (isinstance(a[1], dict) and isinstance(b[1], dict) and snap_equal(snapshot(a[1]), snapshot(b[1]))))
+
+def judge(q, snap, r_inc, r_exc, r_inc2, conv):
+    """the property's clauses for one condition on one table: returns (violation or None, expected inc rows or None when no row claim)"""
+    viol = None
+    cols, rows = rows_of_snapshot(snap)
+    what = json.dumps(q, sort_keys=True)
+    claim = True
+    if 'f' in q and any(a not in cols for a in pred_args(q['f'])): claim = False
+    if 'filters' in q and any(k not in cols for k, _ in q['filters']): claim = False
+    if not claim: return None, None
+    if 'none' in q: sel = [True] * len(rows)
+    elif 'f' in q: sel = [bool(ref_pred(q['f'], r, conv)) for r in rows]
+    else:
+        conds = {}
+        for k, c in q['filters']: conds[k] = c          # kw, dict1, dict2 in this order: the conjunction of all the column conditions
+        def conj(r):
+            vs = [sat_cond(c, r[k], conv) for k, c in conds.items()]
+            return False if any(x is False for x in vs) else None if any(x is None for x in vs) else True
+        sel = [conj(r) for r in rows]
+        if overlapping(q) or any(x is None for x in sel):
+            # two different conditions on ONE column in one call, or a NaN condition against an inf cell: no claim on which rows,
+            # only that inc/exc still split the rows, in order, keeping columns
+            for name, res in (('inc', r_inc), ('exc', r_exc)):
+                if res[0] != 'ok': return '%s(%s) raised %s on table %s' % (name, what, res[0], snap), None
+            ki, gi = table_rows(r_inc[1]); ke, ge = table_rows(r_exc[1])
+            if set(ki) != set(cols) or set(ke) != set(cols): return 'inc/exc(%s) on %s lost columns: %s / %s' % (what, snap, ki, ke), None
+            if len(gi) + len(ge) != len(rows) or not is_subseq(gi, rows) or not is_subseq(ge, rows):
+                return 'inc/exc(%s) on %s do not partition the rows in order (every row must be in exactly one of them): inc %s, exc %s' % (what, snap, gi, ge), None
+            if not overlapping(q) and (not is_subseq(gi, [r for r, x in zip(rows, sel) if x is not False]) or not is_subseq(ge, [r for r, x in zip(rows, sel) if x is not True])):
+                return 'inc/exc(%s) on %s put a row whose membership IS decided on the wrong side: inc %s, exc %s' % (what, snap, gi, ge), None
+            return None, None
+    exp_inc = [r for r, s_ in zip(rows, sel) if s_]
+    exp_exc = [r for r, s_ in zip(rows, sel) if not s_] if 'none' not in q else list(rows)     # no condition: nothing to exclude
+    for name, res, exp in (('inc', r_inc, exp_inc), ('exc', r_exc, exp_exc), ('inc.inc', r_inc2, exp_inc)):
+        if res is None: continue
+        if res[0] != 'ok': return '%s(%s) raised %s on table %s' % (name, what, res[0], snap), exp_inc
+        w = clauses(res[1], '%s(%s)' % (name, what))
+        if w: return w, exp_inc
+        ks, got = table_rows(res[1])
+        if set(ks) != set(cols) or len(ks) != len(cols):
+            return '%s(%s) on %s has columns %s, the table has %s' % (name, what, snap, sorted(ks), sorted(cols)), exp_inc
+        if not rows_equal(got, exp):
+            return '%s(%s) on %s returned rows %s, expected %s (exactly the rows %s the condition, in their original order)' % (name, what, snap, got, exp, 'failing' if name == 'exc' else 'satisfying'), exp_inc
+    return None, exp_inc
+
+def build(kvs, conv):
+    kv = {}
+    for n, v in kvs: kv[n] = conv(v['S']) if 'S' in v else [conv(x) for x in v['L']]
+    return dictable(**kv)
+
+def impl_seq(case):
+    """several inc/exc calls one after the other in this process, on shared table objects: every call is judged on its own,
+    every call is made twice (same answer required) and the table must be unchanged after each"""
+    _FACT.clear()           # code objects are shared inside one case only: a failing case reproduces on its own
     nans = {}
     conv = lambda c: cell_py(c, nans)
-    kv = {}
-    for n, v in case['kvs']: kv[n] = conv(v['S']) if 'S' in v else [conv(x) for x in v['L']]
+    for ti, q in case['steps']:
+        if 'filters' in q:
+            for k, c in q['filters']: cond_py(c, conv)
+        if 'f' in q and q['f'][0] == 'in': [conv(x) for x in q['f'][2]]
+    tables = [build(kvs, conv) for kvs in case['tables']]
+    snaps = [snapshot(t) for t in tables]
+    obs = []; viol = None
+    for no, (ti, q) in enumerate(case['steps']):
+        d = tables[ti]
+        r_inc = attempt(lambda: call_with(d.inc, q, conv)); r_exc = attempt(lambda: call_with(d.exc, q, conv))
+        r_inc_b = attempt(lambda: call_with(d.inc, q, conv)); r_exc_b = attempt(lambda: call_with(d.exc, q, conv))
+        nanid = {id(v): n for n, v in nans.items()}
+        obs.append([dump_table(r[1], nanid) if r[0] == 'ok' else ['ERR', r[0]] for r in (r_inc, r_exc)])
+        if viol: continue
+        here = 'step %d on table %d: ' % (no, ti)
+        if not snap_equal(snaps[ti], snapshot(d)): viol = here + 'inc/exc altered the table they were called on: %s -> %s' % (snaps[ti], snapshot(d)); continue
+        if not same_table(r_inc, r_inc_b) or not same_table(r_exc, r_exc_b):
+            viol = here + 'the same inc/exc(%s) call made twice gave two different answers' % json.dumps(q, sort_keys=True); continue
+        w, _ = judge(q, snaps[ti], r_inc, r_exc, None, conv)
+        if w: viol = here + w
+    return {'status': 'ok', 'obs': obs, 'viol': viol}
+
+def impl(case):
+    if 'steps' in case: return impl_seq(case)
+    _FACT.clear()
+    nans = {}
+    conv = lambda c: cell_py(c, nans)
     q = case['q']
     if 'filters' in q:
         for k, c in q['filters']: cond_py(c, conv)       # create the NaN objects of the condition
+    if 'f' in q and q['f'][0] == 'in': [conv(x) for x in q['f'][2]]
     try:
-        d = dictable(**kv)
+        d = build(case['kvs'], conv)
     except Exception as e:
         return {'status': err_name(e), 'obs': ['ERR', err_name(e)], 'viol': None}
     snap = snapshot(d)
-    results = []
-    def attempt(f):
-        try: return ('ok', f())
-        except Exception as e: return (err_name(e), None)
-    r_inc = attempt(lambda: call_with(d.inc, q, conv))
-    r_exc = attempt(lambda: call_with(d.exc, q, conv))
-    r_inc2 = attempt(lambda: call_with(call_with(d.inc, q, conv).inc, q, conv))
-    r_find = attempt(lambda: call_with(getattr(d, 'find_' + case['fkey']), q, conv))
-    r_one = attempt(lambda: call_with(d.one_or_none, q, conv))
+    viol = None
+    def unchanged(after):
+        nonlocal viol
+        if viol is None and not snap_equal(snap, snapshot(d)): viol = '%s altered the table it was called on: %s -> %s' % (after, snap, snapshot(d))
+    r_inc = attempt(lambda: call_with(d.inc, q, conv)); unchanged('inc')
+    r_exc = attempt(lambda: call_with(d.exc, q, conv)); unchanged('exc')
+    r_inc2 = attempt(lambda: call_with(call_with(d.inc, q, conv).inc, q, conv)); unchanged('inc.inc')
+    r_find = attempt(lambda: call_with(getattr(d, 'find_' + case['fkey']), q, conv)); unchanged('find_')
+    r_one = attempt(lambda: call_with(d.one_or_none, q, conv)); unchanged('one_or_none')
+    r_inc_b = attempt(lambda: call_with(d.inc, q, conv)); r_exc_b = attempt(lambda: call_with(d.exc, q, conv)); unchanged('the second inc/exc')
     nanid = {id(v): n for n, v in nans.items()}
     co = lambda x: cell_obs(x, nanid)
     def tj(r): return dump_table(r[1], nanid) if r[0] == 'ok' else ['ERR', r[0]]
@@ -159,51 +270,13 @@ def impl(case):
            (None if r_one[1] is None else sorted([k, co(x)] for k, x in dict.items(r_one[1]))) if r_one[0] == 'ok' else ['ERR', r_one[0]],
            dump_table(d, nanid)]
     # ------------------------------------------------ oracle
-    viol = None
     cols, rows = rows_of_snapshot(snap)
-    if not snap_equal(snap, snapshot(d)):
-        viol = 'inc/exc/find altered the table they were called on: %s -> %s' % (snap, snapshot(d))
-    claim = True
-    if 'f' in q and any(a not in cols for a in rowfn_args(q['f'])) : claim = False
-    if 'filters' in q and any(k not in cols for k, _ in q['filters']): claim = False
-    if claim and viol is None:
-        if 'none' in q: sel = [True] * len(rows)
-        elif 'f' in q: sel = [bool(ref_rowfn(q['f'], r)) for r in rows]
-        else:
-            conds = {}
-            for k, c in q['filters']: conds[k] = c          # kw, dict1, dict2 in this order: the conjunction of all the column conditions
-            def conj(r):
-                vs = [sat_cond(c, r[k], conv) for k, c in conds.items()]
-                return False if any(x is False for x in vs) else None if any(x is None for x in vs) else True
-            sel = [conj(r) for r in rows]
-            if overlapping(q) or any(x is None for x in sel):
-                # two different conditions on ONE column in one call (kw vs dict): the text does not say whether both apply or the later
-                # one wins (the code: later wins) - no claim on which rows, only that inc/exc still split the rows, in order, keeping columns
-                for name, res in (('inc', r_inc), ('exc', r_exc)):
-                    if res[0] != 'ok': viol = '%s(%s) raised %s on table %s' % (name, json.dumps(q, sort_keys=True), res[0], snap); break
-                if viol is None:
-                    ki, gi = table_rows(r_inc[1]); ke, ge = table_rows(r_exc[1])
-                    if set(ki) != set(cols) or set(ke) != set(cols): viol = 'inc/exc(%s) on %s lost columns: %s / %s' % (json.dumps(q, sort_keys=True), snap, ki, ke)
-                    elif len(gi) + len(ge) != len(rows) or not is_subseq(gi, rows) or not is_subseq(ge, rows):
-                        viol = 'inc/exc(%s) on %s do not partition the rows in order (every row must be in exactly one of them): inc %s, exc %s' % (json.dumps(q, sort_keys=True), snap, gi, ge)
-                    elif not overlapping(q) and (not is_subseq(gi, [r for r, x in zip(rows, sel) if x is not False]) or not is_subseq(ge, [r for r, x in zip(rows, sel) if x is not True])):
-                        viol = 'inc/exc(%s) on %s put a row whose membership IS decided on the wrong side: inc %s, exc %s' % (json.dumps(q, sort_keys=True), snap, gi, ge)
-                claim = False
-    if claim and viol is None:
-        exp_inc = [r for r, s in zip(rows, sel) if s]
-        exp_exc = [r for r, s in zip(rows, sel) if not s] if 'none' not in q else list(rows)     # no condition: nothing to exclude
-        what = json.dumps(q, sort_keys=True)
-        for name, res, exp in (('inc', r_inc, exp_inc), ('exc', r_exc, exp_exc), ('inc.inc', r_inc2, exp_inc)):
-            if res[0] != 'ok':
-                viol = '%s(%s) raised %s on table %s' % (name, what, res[0], snap); break
-            w = clauses(res[1], '%s(%s)' % (name, what))
-            if w: viol = w; break
-            ks, got = table_rows(res[1])
-            if set(ks) != set(cols) or len(ks) != len(cols):
-                viol = '%s(%s) on %s has columns %s, the table has %s' % (name, what, snap, sorted(ks), sorted(cols)); break
-            if not rows_equal(got, exp):
-                viol = '%s(%s) on %s returned rows %s, expected %s (rows %s the condition, in order)' % (name, what, snap, got, exp, 'failing' if name == 'exc' else 'satisfying'); break
-        if viol is None and case['fkey'] in cols:
+    what = json.dumps(q, sort_keys=True)
+    if viol is None and (not same_table(r_inc, r_inc_b) or not same_table(r_exc, r_exc_b)):
+        viol = 'the same inc/exc(%s) call made twice on %s gave two different answers' % (what, snap)
+    if viol is None:
+        viol, exp_inc = judge(q, snap, r_inc, r_exc, r_inc2, conv)
+        if viol is None and exp_inc is not None and case['fkey'] in cols:
             vals = [r[case['fkey']] for r in exp_inc]
             unique = len(vals) > 0 and all(v is vals[0] or v == vals[0] for v in vals)
             if unique:
@@ -256,6 +329,9 @@ def gen_cases(rng, tier):
                 others = [x for x in NAMES if x != args[0]]
                 args.append(rng.choice([x for x in others if x in names] or others))
             q = {'f': [k] + args}
+            if rng.random() < 0.3:
+                col = rng.choice(names); colvals = dict(kvs)[col]['L']
+                q = {'f': ['in', col, [rng.choice(colvals + [FRESH_NAN, 7]) for _ in range(rng.choice([0, 1, 2, 3]))], rng.choice(['closure', 'method', 'loop'])]}
         else:
             ks = rng.sample(names, rng.choice([1, 1, 1, 2, min(3, len(names))][:]) if len(names) > 1 else 1)
             ks = ks[:len(names)]
@@ -305,6 +381,37 @@ def gen_cases(rng, tier):
         g = rng.choice([None, None, [0, len(fs), None], [len(fs) - 1, 1, None], [0, len(fs) - 1, 1]])
         q = {'filters': fs, 'form': 'kw'} if g is None else {'filters': fs, 'form': 'split', 'groups': g}
         cases.append({'kvs': kvs, 'q': q, 'fkey': rng.choice([ka, kb]), 'kind': 'reflags'})
+    # SEQUENCES of calls in one process on shared tables: closures of one factory / bound methods of different objects / a lambda re-created
+    # in a loop (one code object, different captured lists), interleaved with keyword filters and the other callables; every call judged alone
+    for _ in range(160 if tier == 'quick' else 3000):
+        tabs = []
+        for _t in range(rng.choice([1, 2, 2])):
+            n = rng.choice([2, 3, 4, 5, 6]); ka, kb = ('a', 'i') if _t == 0 or rng.random() < 0.7 else rng.choice(NAME_PAIRS)
+            tabs.append([[ka, {'L': [rng.choice([1, 2, 3, 4, 5, None, {'s': 'a'}]) for _ in range(n)]}], [kb, {'L': list(range(n))}]])
+        steps = []
+        for _s in range(rng.choice([2, 3, 4, 5])):
+            ti = rng.randrange(len(tabs)); col = tabs[ti][0][0]; colvals = tabs[ti][0][1]['L']
+            r = rng.random()
+            if r < 0.7: q = {'f': ['in', col, rng.sample(colvals + [9], rng.choice([0, 1, 2])) if rng.random() < 0.8 else list(colvals), rng.choice(['closure', 'closure', 'method', 'loop'])]}
+            elif r < 0.85: q = {'filters': [[col, gen_cond(rng, colvals, colvals)]], 'form': rng.choice(['kw', 'dict'])}
+            else: q = {'f': rng.choice([['isnone', col], ['ident', col], ['eq', col, tabs[ti][1][0]]])}
+            steps.append([ti, q])
+        cases.append({'tables': tabs, 'steps': steps, 'kind': 'seq'})
+    # 7-40 rows with a unique index column: conditions whose survivors (for inc and for exc) are FEW and FAR APART, or nearly all:
+    # any reordering of the surviving rows shows in the index column
+    for _ in range(120 if tier == 'quick' else 2500):
+        n = rng.randrange(7, 41); ka, kb = rng.choice(NAME_PAIRS)
+        kvs = [[ka, {'L': list(range(n))}], [kb, {'L': [j % 10 for j in range(n)]}], ['s', {'L': [{'s': 'row%d' % j} for j in range(n)]}]]
+        keep = sorted(rng.sample(range(n), rng.choice([1, 2, 2, 3])))
+        if rng.random() < 0.4: keep = sorted({rng.choice([0, 1, 2, 3]), n - 1 - rng.choice([0, 1, 2])})
+        r = rng.random()
+        if r < 0.45: fs = [[ka, {'l': [j for j in range(n) if j not in keep]}]]                   # exc keeps few, far apart
+        elif r < 0.7: fs = [[ka, {'l': keep}]]                                                     # inc keeps few
+        elif r < 0.85: fs = [[kb, {'l': rng.sample(range(10), rng.choice([1, 8, 9]))}]]
+        else: fs = [[kb, {'l': [0, 2, 4, 6, 8]}], [ka, {'l': [j for j in range(n) if j not in keep]}]]
+        q = rng.choice([{'filters': fs, 'form': 'kw'}, {'filters': fs, 'form': 'dict'}, {'filters': fs, 'form': 'split', 'groups': [len(fs) - 1, 1, None]},
+                        {'f': ['in', ka, [j for j in range(n) if j not in keep], rng.choice(['closure', 'method'])]}])
+        cases.append({'kvs': kvs, 'q': q, 'fkey': 's', 'kind': 'mid'})
     big = []
     for _ in range(10 if tier == 'quick' else 200):
         n = rng.randrange(101, 201); ka, kb = rng.choice(NAME_PAIRS)
@@ -345,16 +452,27 @@ def gen_cases(rng, tier):
 def nontrivial(case, result):
     try:
         o = result['obs']
+        if 'steps' in case: return any(isinstance(x[0][1], int) and isinstance(x[1][1], int) and x[0][1] > 0 and x[1][1] > 0 for x in o)
         return isinstance(o[0][1], int) and isinstance(o[1][1], int) and o[0][1] > 0 and o[1][1] > 0
     except Exception:
         return False
 
 def shape(case):
+    if 'steps' in case: return '%s:%d steps' % (case.get('kind', 'seq'), len(case['steps']))
     q = case['q']
     k = 'none' if 'none' in q else 'callable' if 'f' in q else 'filters%d%s' % (len(q['filters']), ':' + '/'.join('-' if x is None else str(x) for x in q['groups']) if q.get('groups') else '')
     return '%s:%s' % (case.get('kind', 'corpus'), k)
 
 def shrink(case):
+    if 'steps' in case:
+        st = case['steps']
+        for i in range(len(st) - 1, -1, -1):
+            if len(st) > 1: yield dict(case, steps=st[:i] + st[i + 1:])
+        for j, kvs in enumerate(case['tables']):
+            n = max([len(v['L']) for _, v in kvs if 'L' in v] or [0])
+            for i in range(n):
+                yield dict(case, tables=case['tables'][:j] + [[[k, {'L': v['L'][:i] + v['L'][i + 1:]} if 'L' in v else v] for k, v in kvs]] + case['tables'][j + 1:])
+        return
     kvs = case['kvs']
     n = len(kvs[0][1]['L']) if kvs and 'L' in kvs[0][1] else 0
     for i in range(n):
